@@ -105,6 +105,7 @@ func InstallHook(prev func(string, ...interface{})) func(string, ...interface{})
 			// a Generation is created inside the library: its first events (heartbeat loop Start) come
 			// before the application has seen it. They are buffered until Next returns the generation.
 			pendMu.Lock()
+			liveGenEvent(ev, args) // real-time copy (gen.start ...), see live.go
 			o, known := genOwner[args[0]]
 			if !known {
 				pend[args[0]] = append(pend[args[0]], pendEv{ev, args})
@@ -271,6 +272,7 @@ type logger struct {
 }
 
 func (l logger) Printf(format string, args ...interface{}) {
+	l.liveLog(format, args) // client-side events cg.fail / cg.leaving, see live.go
 	// gates on well-known log lines of the library (the library hands control to the application here)
 	switch {
 	case strings.HasPrefix(format, "subscribed to topics and partitions"):
@@ -575,7 +577,8 @@ func (r *run) cgLoop(m *member, fns, early, earlyMs, lingerMs int) {
 			r.rec.Emit(trace.Event{"ev": "next.call", "m": m.id})
 			gen, err := m.cg.Next(ctx)
 			if err != nil {
-				r.rec.Emit(trace.Event{"ev": "next.err", "m": m.id, "err": err.Error()})
+				code, closed := errClass(err)
+				r.rec.Emit(trace.Event{"ev": "next.err", "m": m.id, "err": err.Error(), "code": code, "closed": closed})
 				if errors.Is(err, kafka.ErrGroupClosed) || ctx.Err() != nil {
 					return
 				}
@@ -647,11 +650,12 @@ func Run(sc *Script) []trace.Event {
 		runsMu.Lock()
 		delete(runs, r)
 		runsMu.Unlock()
+		forgetLive(r)
 	}()
 	r.cl.Intercept = r.intercept
 	r.cl.OnJournal = r.journal
 	r.rec.Emit(trace.Event{"ev": "cfg", "id": sc.ID, "mode": sc.Mode, "stored": stored, "startOffset": sc.StartOffset,
-		"sync": sc.CommitMs == 0, "heartbeatMs": sc.HeartbeatMs, "backoffMs": sc.BackoffMs, "watch": sc.Watch})
+		"sync": sc.CommitMs == 0, "heartbeatMs": sc.HeartbeatMs, "backoffMs": sc.BackoffMs, "watch": sc.Watch, "ntopics": len(r.topics)})
 
 	closeMember := func(m *member, wait bool) {
 		if m.closed {
